@@ -125,6 +125,24 @@ def describe(events, k):
     return sig, desc
 
 
+def expected_for(events, s, k):
+    """what the machine gives for event k: TLC re-validates the history's events s..k with the diagnostic
+    configuration, which prints the machine's result for every event"""
+    wd = vf.workdir("traces")
+    path = os.path.join(wd, "diag-%d.ndjson" % os.getpid())
+    vf.write_ndjson(path, events[s:k + 1])
+    try:
+        r = vf.tlc("TraceCoin.tla", "TraceCoinDiag.cfg", cwd=SPECDIR, workers=1, timeout=600, env={"TRACE": path}, deque=True)
+    except vf.ToolError:
+        return None
+    finally:
+        os.unlink(path)
+    for x in r.tagged("EXPECT"):
+        if x["l"] == k - s + 1:
+            return x["x"]
+    return None
+
+
 def history_slices(events):
     """[(start, end)] event index ranges of the histories (runs A, A2, B of one hid)"""
     out, start = [], 0
@@ -153,6 +171,13 @@ def validate(ck, events, hists, name):
         k = pos + rej[0][0]
         s, e = max((se for se in slices if se[0] <= k), key=lambda se: se[0])
         sig, desc = describe(events, k)
+        exp = expected_for(events, s, k)
+        if exp is not None:
+            res = exp["res"]
+            if res["t"] == "ok" and len(res["v"]) > 40:
+                res = {"t": "ok", "v": "<%d values>" % len(res["v"])}
+            desc += " | machine: %s, counter afterwards %s%s" % (json.dumps(res), exp["counter"],
+                     "" if exp["found"] else " (a hash the machine needs was not among the coin's hasher calls)")
         hid = events[s]["hid"]
         hist = next((h for h in hists if h["hid"] == hid), None)
         ck.violation(sig, desc, {"engine": "coin", "history": hist, "rejected_event": events[k]["e"],
